@@ -40,6 +40,9 @@ def build(prog):
                 if _spec["super"] == "last" and _base is not object:
                     _base.__init__(self)
             ns["__init__"] = __init__
+            if spec.get("alias"):  # the constructor is defined under another name and bound as __init__ as well
+                __init__.__name__ = spec["alias"]
+                ns[spec["alias"]] = __init__
         for m in c.get("defines", []):
             if m == "async_pub":
                 async def async_pub(self, _n=name):
@@ -287,6 +290,11 @@ def programs(hints=()):
             out.append(("no constructor %s x=%d" % ("+".join(order), x0), {"classes": [noinit], "ops": [["new", "A"], ["call", "pub"], ["set", "x", 2], ["set", "x", -1]]}))
             sub = {"name": "B", "base": "A", "invs": [], "init": None, "defines": ["pub"], "setattr": False}
             out.append(("no constructor inherited %s x=%d" % ("+".join(order), x0), {"classes": [noinit, sub], "ops": [["new", "B"], ["call", "pub"], ["set", "x", -1]]}))
+    for alias in ("_setup", "setup"):
+        out.append(("constructor defined under another name (%s)" % alias, {"classes": [A(init={"super": "none", "sets": [], "alias": alias}, attrs={"x": -1})],
+                                                                          "ops": [["new", "A"], ["call", "pub"]]}))
+        out.append(("constructor defined under another name (%s), valid object" % alias, {"classes": [A(init={"super": "none", "sets": ["x"], "alias": alias})],
+                                                                                        "ops": [["new", "A"], ["call", "pub"], ["poke", "x", -1], ["call", "_priv"], ["call", "pub"]]}))
     out.append(("two invariants order", {"classes": [A(invs=[inv("x"), inv("z")], init={"super": "none", "sets": ["x", "z"]})],
                                          "ops": [["new", "A"], ["poke", "x", -1], ["poke", "z", -1], ["call", "pub"]]}))
     B2 = {"name": "B", "base": "A", "invs": [inv("y")], "init": {"super": "first", "sets": ["y"]}, "defines": []}
